@@ -648,6 +648,12 @@ htp_status_t htp_connp_RES_BODY_DETERMINE(htp_connp_t *connp) {
 
             htp_table_clear(connp->out_tx->response_headers);
 
+            // Finalize sending the raw header data of the interim response, so that
+            // it is delivered before the final response begins (and the status line
+            // of the final response is not reported as header data).
+            htp_status_t rc = htp_connp_res_receiver_finalize_clear(connp);
+            if (rc != HTP_OK) return rc;
+
             // Expecting to see another response line next.
             connp->out_state = htp_connp_RES_LINE;
             connp->out_tx->response_progress = HTP_RESPONSE_LINE;
